@@ -225,6 +225,9 @@ def replay_case(n=2):
     sql = 'SELECT * FROM INT1.tbl1 AS t1 JOIN int2.tbl2 AS t2 ON t1.id = t2.id'
     if n == 1:
         sql = 'SELECT * FROM int1 AS t1 JOIN int2.tbl2 AS t2 ON t1.id = t2.id'
+    if n >= 3:
+        # a schema that is spelled like another integration: only the first part is the qualifier
+        sql = 'SELECT * FROM int1.int2.tbl1 AS t1 JOIN int2.tbl2 AS t2 ON t1.id = t2.id'
     try:
         plan = plan_query(parse_sql(sql), integrations=['int1', 'int2'], default_namespace='mindsdb', predictor_metadata=[])
         ints = [s.integration for s in plan.steps if isinstance(s, FetchDataframeStep)]
